@@ -248,7 +248,8 @@ def run(plan, tier, replay_path=None):
         "known_findings_hit": {k: len(v) for k, v in known_hit.items()},
         "samples": [plan.sample(t) for t in traces[:3]],
     })
-    write_evidence(pid, tier, cov, plan.assumptions, time.time() - t0, len(vpaths))
+    if not replay_path:     # a replay re-judges one stored input: it is not a description of what a check covered
+        write_evidence(pid, tier, cov, plan.assumptions, time.time() - t0, len(vpaths))
     say("%s %s: %d model states, %d traces (%d events), %d controls, %d violation(s), %.1fs" %
         (pid, tier, cov["states"], nreal, cov["recorded_events"], len(controls), len(vpaths), time.time() - t0))
     return rc
